@@ -380,7 +380,26 @@ ShiftP(m, d) ==
 ShiftEffect(c, d) == CASE c.k = "Broadcast" -> [c EXCEPT !.m = ShiftP(@, d)]
                        [] c.k \in {"ProcessBlock", "ProcessPreBlock"} -> [c EXCEPT !.block.ts = ShTs(@, d), !.block.prev = ""]
                        [] OTHER -> c
+\* mode "inputs": both runs were given IDENTICAL inputs (payload and ledger timestamps included), only the clock differs.  Own
+\* timestamps then differ irregularly (max(previous + increment, clock)), so payloads are compared by their skeleton; what must be
+\* equal exactly is what the node does and every timer duration it asks for.
+Skeleton(c) == CASE c.k = "Broadcast" -> [k |-> c.k, t |-> c.m.t, h |-> c.m.h, v |-> c.m.v, from |-> c.m.from]
+                 [] c.k = "TimerReset" -> [k |-> c.k, h |-> c.h, v |-> c.v, d |-> c.d]
+                 [] c.k = "TimerExtend" -> [k |-> c.k, d |-> c.d]
+                 [] c.k \in {"ProcessBlock", "ProcessPreBlock"} -> [k |-> c.k, h |-> c.block.h, ok |-> c.ok, txs |-> c.block.txs]
+                 [] c.k = "RequestTx" -> [k |-> c.k, hashes |-> c.hashes]
+                 [] OTHER -> [k |-> c.k]
+ShiftInputsOK(x) ==
+  LET ea == EffectsSeq(x.a)  eb == EffectsSeq(x.b) IN
+    /\ x.a.call = x.b.call /\ x.a.panic = x.b.panic
+    /\ Len(ea) = Len(eb) /\ \A i \in 1..Len(ea) : Skeleton(ea[i]) = Skeleton(eb[i])
+    /\ x.a.post.started = x.b.post.started
+    /\ x.a.post.started => /\ x.a.post.h = x.b.post.h /\ x.a.post.v = x.b.post.v /\ x.a.post.rttAvg = x.b.post.rttAvg
+                            /\ x.a.post.timer.d = x.b.post.timer.d /\ x.a.post.timer.ext = x.b.post.timer.ext
+                            /\ x.a.post.timer.k = x.b.post.timer.k
+                            /\ (x.a.post.timer.k = "t" => x.a.post.timer.due + x.delta = x.b.post.timer.due)
 ShiftOK(x) ==
+  IF "mode" \in DOMAIN x /\ x.mode = "inputs" THEN ShiftInputsOK(x) ELSE
   LET ea == EffectsSeq(x.a)  eb == EffectsSeq(x.b) IN
     /\ x.a.call = x.b.call /\ x.a.panic = x.b.panic
     /\ Len(ea) = Len(eb) /\ \A i \in 1..Len(ea) : ShiftEffect(ea[i], x.delta) = ShiftEffect(eb[i], 0)
